@@ -134,8 +134,7 @@ CHECKS = {
               'abandoned/continued iterator, on data-source iterators and eight '
               'pipeline shapes; the uninterrupted run is the oracle for delivered '
               'rows, agg_result and the StopIteration aggregate.',
-              'num_threads=0 (threaded restore is outside this revision); n<=5/4 '
-              '(7/6)'),
+              'n<=5/4 (7/6) for num_threads=0; 4 records for the threaded part'),
     'C11': _c('E3-enumerators', 'model_checking', _E3 + ' + explicit-state BFS',
               'All bracketings x permutations of <=3 (4) states from datasets of <=2 '
               'rows agree; fresh state neutral on both sides; merge leaves its '
@@ -253,6 +252,10 @@ _ADD = {
     'C09': ' Second-generation recovery: the state recorded by a rebuilt shard / a '
            'restored iterator (before and after one step) must again rebuild the '
            'same elements.',
+    'C10': ' Plus num_threads in {1, 2} under the deterministic scheduler (42 '
+           'pipeline configurations, cut 0-4, free switches at blocking points; '
+           'thorough <= 1 preemption): the known finding "prefetched elements '
+           'are skipped after restore" comes from there.',
     'C12': ' Data sources: sliceable and index-only sequences, from_sequences '
            'members of every length, shards incl. one-element and empty ones.',
     'C14': ' Shutdown is also requested in the middle of a failing / succeeding '
